@@ -54,13 +54,16 @@ fn fread_with(ctor: &str, w: &[&str]) -> Option<String> {
 
 /// `aread <maxlen> <streamhex> <script> <acts>`; acts: `p` poll (calling `read()` if no future
 /// is alive), `d` drop the pending future.
-pub fn aread(w: &[&str]) -> Option<String> { aread_with("n", w) }
-pub fn areadb(w: &[&str]) -> Option<String> { aread_with(w.first()?, &w[1..]) }
-fn aread_with(ctor: &str, w: &[&str]) -> Option<String> {
+pub fn aread(w: &[&str]) -> Option<String> { aread_with("n", w, None) }
+pub fn areadb(w: &[&str]) -> Option<String> { aread_with(w.first()?, &w[1..], None) }
+/// `areadm <maxlen> <streamhex> <script> <acts> <k>`: as `aread`, with a third act `m` = `set_max_len(k)` (taking `&mut self`, it can
+/// only be called when no future is alive: a pending one is dropped first); its transcript entry is `-`.
+pub fn areadm(w: &[&str]) -> Option<String> { let k = w.get(4)?.parse::<u32>().ok()?; aread_with("n", &w[.. 4], Some(k)) }
+fn aread_with(ctor: &str, w: &[&str], setmax: Option<u32>) -> Option<String> {
     let [ml, st, sc, acts] = w else { return None };
     let (ml, st, sc) = (ml.parse::<u32>().ok()?, unhex(st)?, parse_script(sc)?);
     let acts: Vec<char> = if *acts == "-" { Vec::new() } else { acts.chars().collect() };
-    if acts.iter().any(|c| *c != 'p' && *c != 'd') { return None }
+    if acts.iter().any(|c| *c != 'p' && *c != 'd' && !(*c == 'm' && setmax.is_some())) { return None }
     let mut rd = match ctor_buf(ctor)? { None => AsyncReader::new(Src::new(st, sc)), Some(b) => AsyncReader::with_buffer(Src::new(st, sc), b) };
     rd.set_max_len(ml);
     let mut cx = Context::from_waker(Waker::noop());
@@ -69,6 +72,7 @@ fn aread_with(ctor: &str, w: &[&str]) -> Option<String> {
     let mut i = 0;
     while i < acts.len() {
         if acts[i] == 'd' { out.push("-".into()); i += 1; continue }
+        if acts[i] == 'm' { rd.set_max_len(setmax?); out.push("-".into()); i += 1; continue }
         // 'p' with no future alive: call read() and poll the new future
         let mut fut = std::pin::pin!(rd.read::<V>());
         loop {
@@ -80,6 +84,7 @@ fn aread_with(ctor: &str, w: &[&str]) -> Option<String> {
                     out.push("P".into());
                     if i >= acts.len() { break }
                     if acts[i] == 'd' { out.push("-".into()); i += 1; break }
+                    if acts[i] == 'm' { break }            // the future is dropped, the outer loop makes the call
                 }
             }
         }
